@@ -175,12 +175,32 @@ def run(ctx):
         # (b) nested scopes: iterates all scopes and looks the name up locally
         iterates = any(n.endswith('SymbolTable::scopes') or n.endswith('SymbolTable::scope_count') for n in called)
         local = any(n.endswith('Scope::lookup_local') or n.endswith('SymbolTable::lookup_in_scope') for n in called)
-        nested_helper = any(re.search(r'rename::scope_is_within$', n) for n in called) or walks_parent
+        # nesting is transitive: the walk up the Scope.parent chain is a loop (in has_conflict, a closure of it, or a
+        # helper of this module that they call); a single `scope.parent == declaring` test sees direct children only
+        helper_recs = [fx.fns[n] for n in called if n.startswith(RN) and n in fx.fns and n != RN + 'has_conflict']
+        def _parent_in_loop(rec):
+            f2 = F(rec)
+            inloop = set().union(*[set(c) for c in f2.sccs() if len(c) > 1] or [set()])
+            for b2 in inloop:
+                for st2 in f2.bbs[b2]['s']:
+                    if st2[0] == 'A':
+                        for o2 in ([st2[2][1]] if st2[2][0] == 'use' else [['c', st2[2][2]]] if st2[2][0] == 'ref' else []):
+                            if o2[0] in ('c', 'm') and any(f.endswith('Scope.parent') for f in place_fields(o2[1])):
+                                return True
+                t2 = f2.term(b2)
+                if t2['k'] == 'call' and any(a[0] in ('c', 'm') and any(f.endswith('Scope.parent') for f in place_fields(a[1])) for a in t2['a']):
+                    return True
+            # closures passed to and_then / map inside the loop
+            for c in fx.closures_of(rec['id']):
+                if c in fx.fns and any(f.endswith('Scope.parent') for ch in _reads(fx.fns[c]) for f in ch) and inloop:
+                    return True
+            return False
+        nested_helper = any(_parent_in_loop(rec) for rec in bodies + helper_recs)
         r3.saw()
         if iterates and local and nested_helper:
             r3.ok('nested-scopes')
         else:
-            r3.bad('nested-scopes', 'has_conflict does not look into the scopes nested in the declaring scope: renaming a function to the name of a local variable of a caller makes the call bind to that variable (capture)', loc=fn.loc(0))
+            r3.bad('nested-scopes', 'has_conflict does not look into all scopes nested (at any depth) in the declaring scope: renaming a function to the name of a local variable of a caller makes the call bind to that variable (capture)', loc=fn.loc(0))
 
 
 def _reads(rec):
